@@ -1,5 +1,6 @@
 import NiftyVerif.Core.Proto
 import NiftyVerif.Model.Allreduce
+import NiftyVerif.Model.AllreduceReplay
 open Lean NiftyVerif.Proto NiftyVerif.Allreduce
 
 partial def tyOf? (j : Json) : Option Ty :=
@@ -63,6 +64,36 @@ def handle (j : Json) : Json :=
             ("final", if n ≤ 10 then (match execAll (events n) (initStore n) 0 with | some t => jTree t | none => Json.null)
                       else jTree (pairwiseTree n))]
     | none => jErr "bad-args"
+  | some "replay" =>
+    -- {"op":"replay","counts":[..],"m":sub-messages per transfer,"npost":number of bcast collectives,
+    --  "obs":[["p2p",sender,receiver] | ["coll"], ...]}: is the observed global order a run of the model?
+    match fNatList? j "counts", fNat? j "m", fNat? j "npost", (field? j "obs").bind getArr? with
+    | some counts, some m, some npost, some obs =>
+      let n := counts.foldl (· + ·) 0
+      if counts.isEmpty || n == 0 || m == 0 then jErr "bad-args" else
+      let p := counts.length
+      let who := whoOf counts
+      let E := expand who m (events n)
+      let pre := [0, 1]
+      let post := (List.range npost).map (· + 2)
+      -- collectives are numbered in the order they are observed
+      let rec conv (k : Nat) : List Json → Option (List Obs)
+        | [] => some []
+        | o :: rest =>
+          match getArr? o with
+          | some (Json.str "coll" :: _) => (conv (k + 1) rest).map (fun l => Obs.coll k :: l)
+          | some (Json.str "p2p" :: a :: b :: _) => do
+              let s ← getNat? a; let r ← getNat? b; let l ← conv k rest; pure (Obs.p2p s r :: l)
+          | _ => none
+      match conv 0 obs with
+      | none => jErr "bad-args"
+      | some os =>
+        match replay p (E.length + 1) (xInit p who pre post E (initStore n)) os with
+        | none => jObj [("accepted", Json.bool false)]
+        | some x =>
+          jObj [("accepted", Json.bool true), ("finished", Json.bool (x.progs.all (·.isEmpty))),
+                ("slot0", match x.store 0 with | some t => jTree t | none => Json.null)]
+    | _, _, _, _ => jErr "bad-args"
   | some "events" =>
     match fNat? j "n" with
     | some n => jList (fun e => jNats [e.dst, e.src]) (events n)
